@@ -115,3 +115,14 @@ def run(ctx, rep):
             if lhs and len(lhs) > 1 and place_fields(lhs) and place_fields(lhs)[-1] == (BA, 'base_offset'):
                 ok = any(e[0] == 'call' and e[1].split('::')[-1] == 'is_empty' and t for e, t, _ in bool_literals_at(ab, blk))
                 rep.ob('R02.b', BA + '::append', 'base re-established only for an empty buffer', ok, '%s:%s' % (ab.file, st.get('ln')), None if ok else 'the base offset is overwritten although messages are already buffered')
+
+    # ------------------------------------------------------------ R02.i what can be read is what was written
+    rep.rule('R02.i', 'every read of the log is bounded by the published log size: the background persister publishes exactly what it wrote (24-byte header + payload), as the waiting writer does — a published size that lags behind the file hides the newest batches from every poll served from disk', floor=2, analysis='A9')
+    from props.c12 import persister_amounts
+    persister_amounts(ctx, rep, 'R02.i')
+
+    # ------------------------------------------------------------ R02.j a deleted segment leaves no file behind
+    rep.rule('R02.j', 'Segment::delete removes the log file and the index file of the segment, each exactly once: purge re-creates segment 0 at the same paths and the index writer appends, so a surviving index file puts stale entries in front of the new ones (wrong or empty poll slices, also after a restart)', floor=2, analysis='A9 call-argument forms')
+    from props import storage_forms as sfd_
+    sfd_.segment_delete_files(ctx, rep, 'R02.j')
+
